@@ -198,6 +198,19 @@ Definition sec_calls (s : fsection) : list call :=
   end.
 Definition file_calls (f : ffile) : list call := flat_map sec_calls (ff_sections f).
 
+(* the contents of a text / diff section already end with the line ending the object model determines for them
+   (declared, or detected by ITS detection: on the decoded text for preambles, on the bytes for diffs), so that the
+   documented normalisation "a final line ending is appended if missing" changes nothing.  Decidable; it follows from
+   [wf_file] (DomForeignFacts.contents_final_wf), and is kept as a definition because that is how "same contents" is
+   proved. *)
+Definition sec_content_final (s : fsection) : bool :=
+  match sid_kind (fs_id s), sec_payload s with
+  | SPreamble, PText t => teq (final_text (snd (pre_resolve (wopt "line_endings" s) t)) t) t
+  | SDiff, PBytes b => beq (fst (diff_prepared (wopt "line_endings" s) (wopt "encoding" s) b)) b
+  | _, _ => true
+  end.
+Definition contents_final (f : ffile) : bool := forallb sec_content_final (ff_sections f).
+
 (* ================================================================================================ *)
 (** * 4. Same section contents *)
 
